@@ -144,6 +144,13 @@ class BehavioralRTLIRTypeCheckVisitorL3( BehavioralRTLIRTypeCheckVisitorL2 ):
       if v_dtype != field:
         if is_field_reinterpretable:
           target_nbits = field.get_length()
+          # An implicitly sized argument can be zero-extended to the field
+          # but never truncated
+          if isinstance( field, rdt.Vector ) and isinstance( v_dtype, rdt.Vector ) and \
+             v_dtype.get_length() > target_nbits:
+            raise PyMTLTypeError( s.blk, node.ast,
+              f"field {name} of {cls.__name__} has {target_nbits} bits but the integer "
+              f"given as argument#{idx+1} requires more bits ({v_dtype.get_length()})!" )
           s.enforcer.enter( s.blk, rt.NetWire(rdt.Vector(target_nbits)), value )
         else:
           raise PyMTLTypeError( s.blk, node.ast,
